@@ -4,7 +4,7 @@
    indices.  Only statements; every proof is [exact <lemma>]. *)
 From AL Require Import Base.AList Base.StrOrder Out.StableSort Out.Determinism.
 From AL Require Graph.Dfs Graph.Needs Graph.NeedsProofs Graph.NeedsOrder.
-From AL Require Gen.GenAmbient Out.Ambient.
+From AL Require Gen.GenAmbient Out.Ambient Gen.GenMapRange Out.MapRange Expr.Types.
 
 (* the final sort.Stable by position is a function of the per-position
    sub-sequences only: every re-ordering that keeps same-position diagnostics
@@ -118,3 +118,33 @@ Theorem C02_ambient_reads_are_known : forall s,
   In s GenAmbient.ambient_sites -> exists k, In (s, k) Ambient.allowed.
 Proof. exact Ambient.ambient_sites_known. Qed.
 Print Assumptions C02_ambient_reads_are_known.
+
+(* "all map-iteration orders": every `for ... range <map>` loop of the package's source
+   (re-listed on every run with go/types, Gen/GenMapRange.v) is one of the loops that were read
+   and classified — keys sorted first, an order-independent computation, one report per entry at
+   positions of its own, the element type of a merged object — so no loop outside the ones the
+   theorems above speak about can bring the visiting order into the output *)
+Theorem C02_map_range_loops_are_known : forall s,
+  In s GenMapRange.map_range_sites -> exists c, In (s, c) MapRange.allowed.
+Proof. exact MapRange.map_range_sites_known. Qed.
+Print Assumptions C02_map_range_loops_are_known.
+
+(* class Pure: a fold whose step commutes gives the same value for every visiting order *)
+Theorem C02_commuting_fold_order_indep : forall (A B : Type) (f : B -> A -> B),
+  (forall b x y, f (f b x) y = f (f b y) x) ->
+  forall l l', Permutation l l' -> forall b, fold_left f l b = fold_left f l' b.
+Proof. exact (@MapRange.fold_comm_perm). Qed.
+Print Assumptions C02_commuting_fold_order_indep.
+
+(* class FoldMerge: the element type of a merged object, folded from string (every element type
+   of the built-in tables), does not depend on the order of the new properties; from an
+   arbitrary start it would (Merge is not associative) *)
+Theorem C02_merged_element_type_order_indep : forall xs ys,
+  Permutation xs ys -> fold_left Types.merge xs Types.TStr = fold_left Types.merge ys Types.TStr.
+Proof. exact MapRange.fold_merge_str_perm. Qed.
+Print Assumptions C02_merged_element_type_order_indep.
+
+Theorem C02_merged_element_type_general_refuted :
+  exists xs ys, Permutation xs ys /\ fold_left Types.merge xs Types.TNum <> fold_left Types.merge ys Types.TNum.
+Proof. exact MapRange.fold_merge_order_matters. Qed.
+Print Assumptions C02_merged_element_type_general_refuted.
